@@ -80,6 +80,17 @@ Proof. exact (walk_fuel_mono children fuel vis n v). Qed.
 Print Assumptions walk_fuel_irrelevant.
 
 (* the validation of every method's types is total *)
+(* AttributeExpr.Inherit (run by Finalize for every Reference) with its `seen` set: one
+   expansion unit from any state, and a whole Inherit call, on every graph *)
+Theorem inherit_fuel_sufficient g seen x :
+  exists v, inherit_unit g (S (List.length g)) seen x = Some v /\ incl seen v.
+Proof. exact (inherit_unit_total g seen x). Qed.
+Print Assumptions inherit_fuel_sufficient.
+
+Theorem inherit_attr_total_on_every_graph g a p : exists v, inherit_attr g (S (List.length g)) a p = Some v.
+Proof. exact (inherit_attr_total g a p). Qed.
+Print Assumptions inherit_attr_total_on_every_graph.
+
 Theorem required_check_total g roots : exists ns, required_errors g roots = Some ns.
 Proof. exact (required_errors_total g roots). Qed.
 Print Assumptions required_check_total.
@@ -130,13 +141,29 @@ Theorem table_no_unknown_entries e : In e table -> f_kind e <> KUnknown.
 Proof. exact (table_no_unknown e). Qed.
 Print Assumptions table_no_unknown_entries.
 
-(* eval_call is total over function x context with exactly two outcomes on the table *)
+(* a call in an accepted attribute context whose DATA TYPE the function refuses (a
+   child Attribute inside an attribute of user / result / array / primitive type, Key
+   outside a map ...) is reported too, and the program is not accepted *)
+Theorem refused_data_type_reports e c :
+  f_kind e = KStrict -> allowed e c = true -> dtype_ok e c = false ->
+  eval_call c e = [BadDataType (f_name e)] /\
+  forall p later, In (c, e) p -> run_program p later <> Accepted.
+Proof.
+  intros Hk Ha Hd. split; [exact (bad_dtype_reports e c Hk Ha Hd)|].
+  intros p later Hin. apply (reported_not_accepted e c p later); [|exact Hin].
+  rewrite (bad_dtype_reports e c Hk Ha Hd). discriminate.
+Qed.
+Print Assumptions refused_data_type_reports.
+
+(* eval_call is total over function x context (expression kind x data-type kind) with
+   exactly three outcomes on the table *)
 Theorem eval_call_total e c : In e table ->
-  eval_call c e = [] \/ eval_call c e = [Incompatible (f_name e)].
+  eval_call c e = [] \/ eval_call c e = [Incompatible (f_name e)] \/ eval_call c e = [BadDataType (f_name e)].
 Proof.
   intro Hin. assert (Hu := table_no_unknown e Hin). unfold eval_call.
   destruct (f_kind e); try (left; reflexivity); [|congruence].
-  destruct (allowed e c); [left|right]; reflexivity.
+  destruct (allowed e c); [|right; left; reflexivity].
+  destruct (dtype_ok e c); [left|right; right]; reflexivity.
 Qed.
 Print Assumptions eval_call_total.
 
@@ -153,7 +180,7 @@ Print Assumptions table_agrees_with_documented.
 
 (* Payload { a }, Header("zzz"): rejected with exactly that error. names a = 1, zzz = 9 *)
 Example dangling_header_rejected :
-  let m := mkM (SObj [1]) (mkR SEmpty None None) [] [] (Some (mkH [] [] [9] [] BDefault None [] [])) in
+  let m := mkM (SObj [1]) [] (mkR SEmpty None None) [] [] (Some (mkH [] [] [9] [] BDefault None [] [])) in
   validate (mkD [] [] [] [] [] [mkS [] [] [] [m]] [mkN (KObj [(1, 1)]) None [] []; mkN KPrim None [] []] [0]) = [EHeader 9].
 Proof. vm_compute. reflexivity. Qed.
 
@@ -169,6 +196,23 @@ Example mutual_recursion_validated :
   required_errors g [0] = Some [9; 9] /\
   exists v, validate_attr g (graph_fuel g) [] 0 = Some v /\ List.length v = 4.
 Proof. split; [vm_compute; reflexivity|eexists; split; vm_compute; reflexivity]. Qed.
+
+(* two API key schemes (names 5 and 6): the method requires scheme 5, its payload only
+   has the key attribute of scheme 6: rejected; with the right attribute: accepted *)
+Example apikey_of_the_other_scheme_rejected :
+  let d c := mkD [] [] [] [mkSc 5 SAPIKey []; mkSc 6 SAPIKey []] []
+                 [mkS [] [] [] [mkM (SObj [1]) [c] (mkR SEmpty None None) [] [mkQ [5] []] None]]
+                 [mkN (KObj [(1, 1)]) None [] []; mkN KPrim None [] []] [0] in
+  validate (d (CKey 6)) = [ENoAPIKey] /\ validate (d (CKey 5)) = [].
+Proof. split; vm_compute; reflexivity. Qed.
+
+(* Attribute inside an attribute whose type is a user type: refused data type *)
+Example child_attribute_in_user_typed_attribute_reported :
+  match List.find (fun e => String.eqb (f_name e) "Attribute") table with
+  | Some e => eval_call CAttrUser e = [BadDataType "Attribute"%string] /\ eval_call CPayloadObj e = [] /\ eval_call CAttrUnion e = []
+  | None => False
+  end.
+Proof. vm_compute. repeat split; reflexivity. Qed.
 
 (* Title(...) inside a Service is reported; Title inside API is not *)
 Example title_in_service_reported :
